@@ -45,6 +45,9 @@ def shapes(tier):
         for src in ("filename", "object", "inmem"):
             for nb in ((None,) if tier == "quick" and src != "object" else (None, 2)):
                 out.append({"entry": entry, "src": src, "n_batches": nb, "pool": 2 if nb is None else 1, "N": 2})
+    # the iterative sampler going through several likelihood rounds (a fault in a later round must surface as well)
+    for src in ("filename", "inmem"):
+        out.append({"entry": "iterative", "src": src, "n_batches": None, "pool": 1, "N": 3, "req": 2})
     # argument forms at the edge of the documented ones (no injected fault needed): more prior samples requested than the object
     # holds (must raise, nothing may be left behind); the user's file given as a path-like object instead of a str
     out.append({"entry": "rejection", "src": "object", "n_batches": None, "pool": 1, "N": 2, "n_prior": 3})
@@ -79,7 +82,7 @@ def _call(S, joker, shape, data, lib, lnp):
     if shape["entry"] == "rejection":
         return joker.rejection_sample(data, src, n_linear_samples=1, return_logprobs=True, n_batches=shape["n_batches"], in_memory=inmem,
                                       n_prior_samples=shape.get("n_prior"))
-    return joker.iterative_rejection_sample(data, src, n_requested_samples=1, n_linear_samples=1, return_logprobs=True, n_batches=shape["n_batches"],
+    return joker.iterative_rejection_sample(data, src, n_requested_samples=shape.get("req", 1), n_linear_samples=1, return_logprobs=True, n_batches=shape["n_batches"],
                                             init_batch_size=1, in_memory=inmem)
 
 
@@ -478,8 +481,8 @@ def replay(cand):
                 return joker.marginal_ln_likelihood(None, src, n_batches=shape["n_batches"], in_memory=inmem)
             if shape["entry"] == "rejection":
                 return joker.rejection_sample(None, src, n_linear_samples=1, return_logprobs=True, n_batches=shape["n_batches"], in_memory=inmem)
-            return joker.iterative_rejection_sample(None, src, n_requested_samples=1, n_linear_samples=1, return_logprobs=True, n_batches=shape["n_batches"],
-                                                    init_batch_size=2, in_memory=inmem)
+            return joker.iterative_rejection_sample(None, src, n_requested_samples=shape.get("req", 1) if shape.get("req") is None else len(lib), n_linear_samples=1, return_logprobs=True,
+                                                    n_batches=shape["n_batches"], init_batch_size=2 if shape.get("req") is None else 1, in_memory=inmem)
         bad = []
         raised = None
         try:
